@@ -164,13 +164,15 @@ def _make(seq):
                         if name in registered and objs[name]._file is not None:
                             flush_expect[name] += 1
                 elif op == "teardown":
+                    was_registered = list(registered)
                     g.teardown()
                     torn = True
                     registered.clear()
                     if g._writers:
                         return V("writers-left-after-teardown", lambda: f"{g._writers!r}; {log}")
                     for name in ("T", "Bin"):
-                        if objs[name]._file is not None:
+                        # only writers registered at that moment are torn down
+                        if name in was_registered and objs[name]._file is not None:
                             return V("file-writer-not-disconnected-by-teardown", lambda: f"{name}; {log}")
                     # the reference writer is registered again so that later lines can be observed
                     g.add_writer(ref)
